@@ -9,6 +9,7 @@ import (
 	"regexp"
 	"sort"
 	"strings"
+	"time"
 
 	"verif/engine/explore"
 	"verif/engine/imapc"
@@ -29,6 +30,9 @@ type Params struct {
 	Alphabet  []explore.Event      `json:"alphabet"`
 	Oracles   []string             `json:"oracles"`
 	Hold      bool                 `json:"hold"`
+	// IdleBulkMS: gluon's IDLE bulk time in ms (0 = responses are sent at once). With a value far above the length of
+	// a run nothing is flushed by the timer: what is pushed during IDLE stays buffered until IDLE ends.
+	IdleBulkMS int `json:"idle_bulk_ms,omitempty"`
 }
 
 type sess struct {
@@ -67,7 +71,7 @@ func New(raw json.RawMessage) (explore.Run, error) {
 	for _, o := range p.Oracles {
 		r.orc[o] = true
 	}
-	w, err := world.New(world.Config{Hold: p.Hold})
+	w, err := world.New(world.Config{Hold: p.Hold, IdleBulk: time.Duration(p.IdleBulkMS) * time.Millisecond})
 	if err != nil {
 		return nil, err
 	}
